@@ -356,7 +356,7 @@ pub fn c06(ctx: &Ctx) -> PropResult {
         stats,
         rule: format!("{} programs (the repository's tests and examples, generated programs) -> token stream -> {} random admissible renderings each: at every token boundary one of nothing (only next to a bracket or comma), blanks, tab, CR, backslash-newline, and - where the previous token cannot end a statement - newline, CRLF, blank lines or a // comment with non-ASCII text; every terminator as newline, CRLF, comment+newline or ';'; every keyword independently upper or lower case; leading and trailing blank/comment material; implementation-only oracle: same tokens (kinds, literals, text) and same behaviour as the canonical layout; the variant is also run through the model; converse clause: for every token kind a newline (or comment+newline) after it yields a terminator exactly for the kinds of the extracted ender set; the fourth extreme layout leaves out every separator the lexical grammar does not need (a number directly before a word, words next to operators); terminators made of a continuation and comment-only lines; names that begin with a keyword at line starts; fifteen constructs as the very last thing of the input ending in nothing / blank / tab / CR / comment / ; / continuation; a binary minus or a comparison in front of a unary minus; header and body on two lines for headers that end in a statement-ending token; numbers, texts and names as the very last token of the input", programs.len(), per),
         exhaustive: false,
-        notes: vec![],
+        notes: vec!["round 16: a brace-less branch and its ELSE separated by blank lines, comment lines, `;` + newline, CR LF; round 17: a text literal with raw line breaks as the last token of its line, then another statement".into()],
     }
 }
 
@@ -791,7 +791,7 @@ pub fn c09(ctx: &Ctx) -> PropResult {
         stats,
         rule: "random derivations of the documented statement grammar (expression statements, IF / ELSE IF / ELSE, REPEAT TIMES, REPEAT UNTIL, FOR EACH, PROCEDURE and EXPORT PROCEDURE with 0-3 parameters, RETURN valued and bare, BREAK / CONTINUE inside loops, the three IMPORT forms, nested bare blocks; depth <= 3, <= 3 statements per block) with an independent terminator choice per statement (newline, ';', '; ', blank line, directly before '}' or the end of input) and block-opening layout; the documented forms of the property's text verbatim; rejection: 31 fixed misplaced / unbalanced / missing-operand programs and every random single bracket deletion / insertion in a valid derivation that a bracket counter proves unbalanced; implementation-only oracle: accepted / rejected with >= 1 diagnostic; syntax trees and diagnostic labels compared with the model; nesting depths 1 .. 200 of every block kind and expression kind, ELSE IF chains and flat programs of 1 .. 300 parts (accepted and run); names that begin with a keyword; brace-less branches followed by ELSE on the same line, brace-less bodies at the end of the input (as the model says); RETURN followed by every kind of expression start; the derivations with comments at line ends and on lines of their own".into(),
         exhaustive: false,
-        notes: vec![],
+        notes: vec!["round 16: procedure headers naming a parameter twice are accepted and run (the later binding wins)".into()],
     }
 }
 
@@ -1076,7 +1076,7 @@ pub fn c11(ctx: &Ctx) -> PropResult {
         stats,
         rule: "22 failing expressions (every runtime-error kind: arithmetic and type errors, division / MOD by zero, undefined variable / procedure, index out of range / of wrong type / on a non-indexable, wrong argument count, argument casts, INSERT / REMOVE range) x 10 expression / statement contexts (nested in arithmetic, conditions, list literals, call arguments, loops, recursion depth 3), loop-header and indexed-assignment errors, 17 lexical / syntactic errors, random programs; every source prefixed with random noise (comments with 2-, 3- and 4-byte characters, blank lines, strings containing newlines); implementation-only oracle: every label inside the source on character boundaries, the labelled text is the construct the property names for that error kind, earlier output intact; error spans compared with the model; non-trivial = a diagnostic was produced; every library procedure x argument position x twelve values (some written with commas), the other arguments type-correct, plain and written with commas; two- and three-level set targets and reads with the failing index at each level; the opening brace on the line after a header with a wrong value; modules that fail to lex or parse under three import spellings; every runtime error also through the crate's public pipeline (ApLang::execute): the report's label is the interpreter's; failing constructs at the very end of texts with hundreds of multi-byte bytes in front".into(),
         exhaustive: false,
-        notes: vec![],
+        notes: vec!["round 16: for errors raised inside a user module the report of the public pipeline (ApLang::execute) is read through its own attached source: the text under its first label must be the module's failing construct".into()],
     }
 }
 
